@@ -236,7 +236,9 @@ def check_property(prop, tier="quick", seed=0, jobs=None, only=None, write_evide
     modname = f"gtv.props.{prop}"
     mod = importlib.import_module(modname)
     obs = [o for o in mod.REG.obs if tier == "thorough" or o.tier == "quick"]
-    if only:
+    if isinstance(only, (set, frozenset)):
+        obs = [o for o in obs if o.id in only]
+    elif only:
         obs = [o for o in obs if fnmatch.fnmatchcase(o.id, only) or only in o.id]
     if not obs:
         print(f"CHECKER-ERROR property={prop}: zero obligations generated (vacuity guard)")
